@@ -478,6 +478,12 @@ pub fn xfer(prop: &'static str, tier: Tier, w: &Arc<World>) -> Scn {
     let path = dir.join(fname);
     if kind == Kind::Download {
         std::fs::write(&path, &*data).expect("write served file");
+    } else if prop == "C08" && d.chance("swarm.upload.to_dev_null", 1, 16) {
+        // the target exists as a link to /dev/null and --overwrite is on: the bytes go nowhere, the
+        // acknowledgements are owed all the same (C08 judges the wire, not the disk)
+        srv.overwrite = true;
+        xc_no_resend = true;
+        let _ = std::os::unix::fs::symlink("/dev/null", &path);
     } else if (prop == "C02" || prop == "C04") && d.chance("swarm.upload.overwrites_existing", 1, 4) {
         // the target already exists (longer or shorter than the upload) and --overwrite is on
         srv.overwrite = true;
